@@ -162,6 +162,71 @@ theorem force_zero (solver : List (List K) → List K → List K) (nv : Nat) (ja
 
 end force
 
+section rows
+variable {K : Type} [Field K] [LinearOrder K] [IsStrictOrderedRing K] [HasPow K]
+
+/-- dof `i` of the system as `jac_limit` reads it -/
+def dofAt (s : Sys K) (i : Nat) : DofP K := s.dofs.getD i ⟨⟨0, 0⟩, 0, 0, 0, none, none, 0⟩
+
+/-- every limited coordinate lies in its (closed) range -/
+def AllInRange (s : Sys K) (q : List K) : Prop :=
+  ∀ ix ∈ limitIdx s.types, InRange (nthS q ix.1) (dofAt s ix.2).lo (dofAt s ix.2).hi
+
+/-- a block of constraint rows `(jac, diag, aref)` that is identically zero -/
+def RowsZero (nv : Nat) (r : List (List K) × List K × List K) : Prop :=
+  (∀ row ∈ r.1, row = List.replicate nv 0) ∧ (∀ d ∈ r.2.1, d = 0) ∧ (∀ a ∈ r.2.2, a = 0)
+
+theorem jacLimit_inactive (s : Sys K) (sp : List (SolverParams K)) (q qd : List K)
+    (h : AllInRange s q) : RowsZero s.nv (jacLimit s sp q qd) := by
+  unfold jacLimit
+  split
+  · exact ⟨by simp, by simp, by simp⟩
+  · simp only [RowsZero, List.map_map, List.mem_map, Function.comp]
+    refine ⟨?_, ?_, ?_⟩
+    · rintro row ⟨ix, hix, rfl⟩
+      have := limitRow_inactive s.nv (dofAt s ix.2) (nth sp ix.2) ix.2 (nthS q ix.1) qd (h ix hix)
+      unfold dofAt at this; rw [this]
+    · rintro d ⟨ix, hix, rfl⟩
+      have := limitRow_inactive s.nv (dofAt s ix.2) (nth sp ix.2) ix.2 (nthS q ix.1) qd (h ix hix)
+      unfold dofAt at this; rw [this]
+    · rintro a ⟨ix, hix, rfl⟩
+      have := limitRow_inactive s.nv (dofAt s ix.2) (nth sp ix.2) ix.2 (nthS q ix.1) qd (h ix hix)
+      unfold dofAt at this; rw [this]
+
+/-- the jacobian rows of a contact block have one entry per dof -/
+theorem jacContact_inactive (s : Sys K) (com : List (V3 K)) (cdof : List (Motion K)) (qd : List K)
+    (cs : List (GContact K)) (h : ∀ c ∈ cs, ¬ c.dist < 0) :
+    (∀ row ∈ (jacContact s com cdof qd cs).1, ∀ e ∈ row, e = 0)
+    ∧ (∀ d ∈ (jacContact s com cdof qd cs).2.1, d = 0)
+    ∧ (∀ a ∈ (jacContact s com cdof qd cs).2.2, a = 0) := by
+  unfold jacContact
+  simp only [List.mem_map, List.mem_flatMap]
+  refine ⟨?_, ?_, ?_⟩
+  · rintro row ⟨r, ⟨c, hc, hr⟩, rfl⟩
+    exact (contactRows_inactive _ _ _ c (h c hc) r hr).1
+  · rintro d ⟨r, ⟨c, hc, hr⟩, rfl⟩
+    exact (contactRows_inactive _ _ _ c (h c hc) r hr).2.1
+  · rintro a ⟨r, ⟨c, hc, hr⟩, rfl⟩
+    exact (contactRows_inactive _ _ _ c (h c hc) r hr).2.2
+
+theorem mem_replicate_zero {n : Nat} {row : List K} (h : row = List.replicate n 0) :
+    ∀ e ∈ row, e = 0 := by
+  intro e he; rw [h] at he; exact (List.mem_replicate.mp he).2
+
+/-- all limits unreached and all contacts separated: every row of `con_jac` is zero -/
+theorem jacobian_inactive (s : Sys K) (sp : List (SolverParams K)) (com : List (V3 K))
+    (cdof : List (Motion K)) (q qd : List K) (cs : List (GContact K))
+    (hl : AllInRange s q) (hc : ∀ c ∈ cs, ¬ c.dist < 0) :
+    ∀ row ∈ (jacobian s sp com cdof q qd cs).1, ∀ e ∈ row, e = 0 := by
+  unfold jacobian
+  intro row hrow
+  simp only [List.mem_append] at hrow
+  rcases hrow with h1 | h1
+  · exact (jacContact_inactive s com cdof qd cs hc).1 row h1
+  · exact mem_replicate_zero ((jacLimit_inactive s sp q qd hl).1 row h1)
+
+end rows
+
 section pyramid
 variable {K : Type} [Field K] [LinearOrder K] [IsStrictOrderedRing K]
 
